@@ -8,8 +8,8 @@ must not be applied to event sequences between the per-context bucket and the ro
 a) MemTable::insert_internal appends to the context bucket with push only.
 b) no order-disturbing operation on a slice/Vec of Event is reachable from Flusher::flush (positive control: Event::order_by contains such operations).
 c) MemTable::iter / take expose the BTreeMap buckets unchanged (no re-ordering adapters).
-e) the Query command that REPLAY is converted to must request an order: with order_by None the pipeline uses unordered fan-in mergers and concurrently produced flows arrive in completion order.
-Noted, not armed (not reproduced in isolation): zone_merger::HeapItem::cmp compares context_id only, so equal contexts from different input segments pop in heap order during compaction.
+e) the Query command that REPLAY is converted to requests ORDER BY event_id ascending (with order_by None the pipeline uses unordered fan-in mergers and concurrently produced flows arrive in completion order), is scoped to the context and carries no limit/offset/where/aggregate.
+Noted, not armed: zone_merger::HeapItem::cmp compares context_id only, so equal contexts from different input segments are interleaved during compaction (reproduced: rows come back 1,5,2,6,…); since REPLAY orders by event id this no longer affects C04, and QUERY promises no order without ORDER BY.
 Not decided: that a requested order equals append order for every history (value level); routing stability is C12.a.
 """
 FLOOR = 4
@@ -130,8 +130,19 @@ def run(ctx):
         bad = []
         L = b.origins(v["o"][v["fields"].index("order_by")])
         inst.sites = ["order_by <- %s" % fmt_leaves(L)]
-        if all(l[0] == "agg" and l[1].endswith("Option::None") for l in L):
+        if any(l[0] == "agg" and l[1].endswith("Option::None") for l in L) or not L:
             bad.append(("replay-unordered", "REPLAY is executed as a Query with order_by: None — flows from memtable, passive buffers and segments are merged in completion order", None))
+        else:
+            specs = b.aggregates("command::types::OrderSpec")
+            if len(specs) != 1:
+                bad.append(("replay-order-spec", "REPLAY's order is not a single OrderSpec literal", None))
+            else:
+                _, _, sv, _ = specs[0]
+                fld = str_consts(b, sv["o"][sv["fields"].index("field")])
+                desc = sv["o"][sv["fields"].index("desc")].get("k")
+                inst.sites.append("OrderSpec { field: %s, desc: %s }" % (sorted(fld), desc))
+                if fld != {"event_id"} or desc != "false":
+                    bad.append(("replay-order-key", "REPLAY is ordered by %s desc=%s; append order within a context is ascending event_id" % (sorted(fld), desc), None))
         Lc = b.origins(v["o"][v["fields"].index("context_id")])
         if not any(l[0] == "agg" and l[1].endswith("Option::Some") for l in Lc):
             bad.append(("replay-unscoped", "REPLAY query is not scoped to the context (%s)" % fmt_leaves(Lc), None))
